@@ -74,6 +74,9 @@ fn main() {
     if args.len() >= 2 && args[0] == "--follow-child" {
         std::process::exit(follow_child::child_main(&args[1]));
     }
+    if args.len() >= 2 && args[0] == "--run-job" {
+        std::process::exit(props::c18::run_job_main(&args[1]));
+    }
     if args.is_empty() {
         eprintln!("usage: vcheck-bin <ID> quick|thorough|--replay <file>");
         std::process::exit(2);
@@ -93,6 +96,8 @@ fn main() {
         "C15" => dispatch(props::c15::C15, &args),
         "C16" => dispatch(props::c16::C16, &args),
         "C17" => dispatch(props::c17::C17, &args),
+        "C18" => dispatch(props::c18::C18, &args),
+        "C19" => dispatch(props::c19::C19, &args),
         "C20" => dispatch(props::c20::C20, &args),
         other => {
             eprintln!("unknown property '{}'", other);
